@@ -85,7 +85,12 @@ pub fn enforce_constraints<E: FieldElement<BaseField = Felt>>(
     constraint_offset += bitwise::get_transition_constraint_count();
 
     // memory transition constraints
-    memory::enforce_constraints(frame, &mut result[constraint_offset..], frame.memory_flag(false));
+    memory::enforce_constraints_with_row_flag(
+        frame,
+        &mut result[constraint_offset..],
+        frame.memory_flag(false),
+        frame.memory_flag(true),
+    );
 }
 
 // TRANSITION CONSTRAINT HELPERS
